@@ -405,14 +405,20 @@ class Impl:
 
     @contextlib.contextmanager
     def raw_deriv(self):
-        """`rules.deriv` calls `normalize` only through the module global `rules.normalize` (closure `normal`);
-        replacing that global by the identity exposes the raw case structure.  Restored on exit."""
-        old = self.rules.normalize
-        self.rules.normalize = lambda e, conds=None: e
+        """`rules.deriv` calls `normalize` through the module global `rules.normalize` (closure `normal`); replacing
+        that global (and `poly.normalize`, in case the call is ever written that way) by the identity exposes the raw
+        case structure.  Restored on exit.  If a refactoring reaches `normalize` under yet another name the stub is
+        silently ineffective: `deriv_stream` therefore never treats a purely structural difference as a failure (it
+        falls back to comparing normal forms and then values)."""
+        old, oldp = self.rules.normalize, self.poly.normalize
+        ident = lambda e, conds=None: e      # noqa: E731
+        self.rules.normalize = ident
+        self.poly.normalize = ident
         try:
             yield
         finally:
             self.rules.normalize = old
+            self.poly.normalize = oldp
 
 
 # =====================================================================================================
@@ -469,8 +475,11 @@ def cond_holds(E, cond, env):
             ">": a > b + margin, ">=": a >= b}[cond.op]
 
 
-def sample_env(E, rng, names, conds, intvars, tries=300):
-    """A random environment for `names` satisfying every stated condition that mentions only them."""
+def sample_env(E, rng, names, conds, intvars, tries=300, mode="interior"):
+    """A random environment for `names` satisfying every stated condition that mentions only them.
+
+    mode "interior": well inside the admissible region; "near": parameters with a stated bound  v < c / v > c  sit
+    close to it (0.01 .. 0.06 away), the others close to 0; "wide": larger magnitudes (up to 6)."""
     names = sorted(names)
     # bounds of the form  v < c,  v > c  ... with a numeric c steer the proposal distribution
     hints = {}
@@ -486,6 +495,18 @@ def sample_env(E, rng, names, conds, intvars, tries=300):
                     if op in (">", ">="):
                         lo_i = max(lo_i, int(v) + (1 if op == ">" else 0))
                 env[n] = lo_i + rng.choice([0, 1, 1, 2, 2, 3, 4])
+            elif n in hints and mode == "near":
+                lo_h = max([v for op, v in hints[n] if op in (">", ">=")], default=None)
+                hi_h = min([v for op, v in hints[n] if op in ("<", "<=")], default=None)
+                d = rng.uniform(0.01, 0.06)
+                if lo_h is not None and (hi_h is None or rng.random() < 0.5):
+                    env[n] = round(lo_h + d, 3)
+                else:
+                    env[n] = round(hi_h - d, 3)
+            elif mode == "near" and rng.random() < 0.6:
+                env[n] = round(rng.choice([-1, 1]) * rng.uniform(0.02, 0.12), 3)
+            elif mode == "wide" and n not in hints:
+                env[n] = round(rng.choice([-1, 1, 1]) * rng.uniform(2.0, 6.0), 3)
             elif n in hints and rng.random() < 0.7:
                 lo_h = max([v for op, v in hints[n] if op in (">", ">=")], default=None)
                 hi_h = min([v for op, v in hints[n] if op in ("<", "<=")], default=None)
@@ -674,10 +695,22 @@ class StepJudge:
     Returns ("ok" | "skip:<why>" | "bad", detail).
     """
 
-    def __init__(self, I, rng, nsamples=2, budget_s=20.0):
+    MODES = ("interior", "near", "wide")
+
+    def __init__(self, I, rng, nsamples=3, budget_s=20.0):
         self.I, self.E, self.rng, self.nsamples = I, I.expr, rng, nsamples
         self.budget_s = budget_s
         self.deadline = None
+        self.cache = {}          # (expr string, env, base) -> value | Unrel: consecutive steps share an expression
+        self.env_seed = None     # when set, environments are a function of (seed, variables, attempt): shared by the steps
+
+    def env_rng(self, free, attempt):
+        if self.env_seed is None:
+            return self.rng
+        import hashlib
+        import random
+        h = hashlib.sha256(repr((self.env_seed, sorted(free), attempt)).encode()).digest()
+        return random.Random(int.from_bytes(h[:8], "big"))
 
     def left(self):
         """Seconds left for the current step (each evaluation gets what is left, at most 20 s)."""
@@ -740,12 +773,18 @@ class StepJudge:
                 return "skip:no-antiderivative-variable", None
         nrel, detail = 0, None
         self.deadline = time.time() + self.budget_s
-        for _ in range(self.nsamples * 4):
+        self.last_nrel = 0
+        for attempt in range(self.nsamples * 3):
             if nrel >= self.nsamples or time.time() > self.deadline:
                 break
-            env = sample_env(E, rng, free, conds, intvars)
+            # one interior point, one near the stated bounds, one of larger magnitude, then repeat
+            mode = self.MODES[attempt % 3]
+            rng = self.env_rng(free, attempt)
+            env = sample_env(E, rng, free, conds, intvars, mode=mode)
             if env is None:
-                return "skip:no-admissible-sample", None
+                if attempt == 0:
+                    return "skip:no-admissible-sample", None
+                continue
             try:
                 if updown:
                     env0 = self.resolve(env, substs, defs)
@@ -766,6 +805,7 @@ class StepJudge:
                 detail = str(u)
                 continue
             nrel += 1
+            self.last_nrel = nrel
             if is_relation(E, before):
                 # vals are residuals; the new equation must hold where the old one does
                 if abs(vals[0]) <= TOL and abs(vals[1]) > 1e-4 * max(1, abs(vals[1])) and abs(vals[1]) > 1e-4:
@@ -774,6 +814,7 @@ class StepJudge:
                     return "skip:premise-not-numerically-true", None
             elif not close(vals[0], vals[1]):
                 return "bad", {"env": env, "before": str(vals[0]), "after": str(vals[1]), "up_to_constant": updown}
+        self.last_nrel = nrel
         if nrel == 0:
             return "skip:unreliable:" + (detail or "?").split(":")[0], None
         return "ok", None
@@ -783,15 +824,69 @@ class StepJudge:
         if is_relation(E, e):
             if e.op != "=":
                 raise Unrel("inequality")
-            return two_prec(E, e.args[0], env, defs, base, self.left()) - two_prec(E, e.args[1], env, defs, base, self.left())
-        return two_prec(E, e, env, defs, base, self.left())
+            return self.val(e.args[0], env, defs, base) - self.val(e.args[1], env, defs, base)
+        key = (str(e), tuple(sorted(env.items())), tuple(sorted(base.items())) if base else None)
+        hit = self.cache.get(key)
+        if hit is not None:
+            if isinstance(hit, Unrel):
+                raise Unrel(str(hit))
+            return hit
+        try:
+            v = two_prec(E, e, env, defs, base, self.left())
+        except Unrel as u:
+            if str(u) != "slow":          # a time-out says nothing about the next attempt with more time left
+                self.cache[key] = u
+            raise
+        self.cache[key] = v
+        return v
 
 
-def replay_examples(ctx, I, files=None, only=None, budget_s=None, deadline=None):
-    """Re-run every recorded step through compstate and judge it numerically."""
+def nsteps_of(content):
+    n = 0
+
+    def walk(x):
+        nonlocal n
+        if isinstance(x, dict):
+            if x.get("type") == "CalculationStep":
+                n += 1
+            for v in x.values():
+                walk(v)
+        elif isinstance(x, list):
+            for v in x:
+                walk(v)
+    walk(content)
+    return n
+
+
+def example_groups(files, k):
+    """Split the example files into k groups of about the same number of recorded steps (deterministic)."""
+    groups, load = [[] for _ in range(k)], [0] * k
+    for name, content in sorted(files, key=lambda f: (-nsteps_of(f[1]), f[0])):
+        j = load.index(min(load))
+        groups[j].append((name, content))
+        load[j] += nsteps_of(content)
+    return groups
+
+
+def load_replayable(ctx):
+    """Keys of the recorded steps whose rule re-runs without raising on the unchanged tree (committed list,
+    regenerated with C19_REGEN_REPLAYABLE=1 ./check C19)."""
+    p = os.path.join(ctx.verif, "corpus", "c19_replayable.json")
+    if os.path.exists(p):
+        with open(p) as f:
+            d = json.load(f)
+            return set(d["steps"]) | {"file:" + n for n in d.get("files", [])}
+    return set()
+
+
+def replay_examples(ctx, I, files=None, only=None, budget_s=None, deadline=None, collect=None):
+    """Re-run every recorded step through compstate and judge it numerically (>= 3 admissible parameter points per
+    step: interior, near the stated bounds, larger magnitude).  collect: list receiving the keys of the steps that
+    re-run without raising (no judging then)."""
     E, cs = I.expr, I.compstate
     rng = ctx.rng("examples")
-    judge = StepJudge(I, rng, nsamples=ctx.scale(1, 2), budget_s=budget_s or ctx.scale(3.0, 20.0))
+    judge = StepJudge(I, rng, nsamples=3, budget_s=budget_s or ctx.scale(4.0, 20.0))
+    replayable = load_replayable(ctx)
     stats = {}
 
     def bump(k):
@@ -811,6 +906,8 @@ def replay_examples(ctx, I, files=None, only=None, budget_s=None, deadline=None)
         except Exception as ex:  # noqa
             bump("file-load-error:" + type(ex).__name__)
             ctx.log("examples: cannot load %s: %r" % (name, ex))
+            if "file:" + name in replayable:
+                ctx.broken("example-load:" + name, "example file %s no longer loads (%r); it loads on the unchanged tree" % (name, ex))
             continue
         for idx, item in enumerate(file.content):
             all_exprs = []
@@ -840,9 +937,14 @@ def replay_examples(ctx, I, files=None, only=None, budget_s=None, deadline=None)
                 calc_ivars -= set(all_substs)
                 if not calc_ivars:
                     calc_ivars = set(item_ivars)
+                judge.cache.clear()
+                judge.env_seed = (ctx.seed, label)      # the steps of one calculation are judged at the same points
                 for i, step in enumerate(calc.steps):
                     key = "%s/step%d" % (label, i)
                     if only is not None and key != only:
+                        continue
+                    if deadline is not None and time.time() > deadline:
+                        bump("step-not-reached-in-time-cap")
                         continue
                     rname = step.rule.export().get("name", type(step.rule).__name__)
                     before_s = str(calc.start if i == 0 else calc.steps[i - 1].res)
@@ -866,6 +968,14 @@ def replay_examples(ctx, I, files=None, only=None, budget_s=None, deadline=None)
                         bump("rerun-timeout")
                     except Exception as ex:  # noqa
                         bump("rerun-raises:" + type(ex).__name__)
+                        if key in replayable:
+                            # the rule no longer applies to a step it was recorded on (and replayed on the unchanged tree)
+                            ctx.broken("example-replay:" + key, "%s raises %s: %s on the recorded step %s (%s), which replays on the "
+                                       "unchanged tree" % (rname, type(ex).__name__, str(ex)[:200], key, before_s[:200]))
+                    if collect is not None:
+                        if rerun is not None:
+                            collect.append(key)
+                        continue
                     with quiet():
                         before = I.parser.parse_expr(before_s)
                     after = rerun if rerun is not None else recorded
@@ -879,6 +989,7 @@ def replay_examples(ctx, I, files=None, only=None, budget_s=None, deadline=None)
                     except Exception as ex:  # noqa  (evaluator trouble is never a verdict)
                         verdict, detail = "skip:evaluator-error:" + type(ex).__name__, None
                     bump(verdict if verdict != "bad" else "bad")
+                    stats["points"] = stats.get("points", 0) + getattr(judge, "last_nrel", 0)
                     if os.environ.get("C19_DEBUG") and verdict != "ok":
                         ctx.log("   %s %s [%s]: %s  ==>  %s" % (verdict, key, rname, before_s, after))
                     stats.setdefault("_slow", []).append((round(time.time() - t0, 1), round(t0 - t_r, 1), key, verdict))
@@ -933,6 +1044,31 @@ def to_sexp(E, e):
 
 def canon(x):
     return sexp.dumps(x)
+
+
+def from_sexp(E, x):
+    """sexp (as parsed by sexp.loads) of the Lean model's expression type -> Expr."""
+    k = x[0]
+    if k == "v":
+        return E.Var(sexp.dec(x[1]))
+    if k == "c":
+        q = Fraction(int(x[1]), int(x[2]))
+        return E.Const(q if q.denominator != 1 else int(q))
+    if k == "neg":
+        return E.Op("-", from_sexp(E, x[1]))
+    if k == "f0":
+        return E.Fun(sexp.dec(x[1]))
+    if k == "f1":
+        return E.Fun(sexp.dec(x[1]), from_sexp(E, x[2]))
+    if k == "int":
+        return E.Integral(sexp.dec(x[1]), from_sexp(E, x[2]), from_sexp(E, x[3]), from_sexp(E, x[4]))
+    if k == "at":
+        return E.EvalAt(sexp.dec(x[1]), from_sexp(E, x[2]), from_sexp(E, x[3]), from_sexp(E, x[4]))
+    if k == "d":
+        return E.Deriv(sexp.dec(x[1]), from_sexp(E, x[2]))
+    if k in ("+", "-", "*", "/", "^"):
+        return E.Op(k, from_sexp(E, x[1]), from_sexp(E, x[2]))
+    raise ValueError(k)
 
 
 # =====================================================================================================
@@ -1040,6 +1176,12 @@ def deriv_stream(ctx, I, n):
     for _ in range(n):
         d = rng.choice([1, 2, 2, 3, 3, 4])
         cases.append(gen_expr(E, rng, d, names=("x", "x", "y", "n"), binders=(rng.random() < 0.5)))
+    for _ in range(max(8, n // 20)):
+        # parameter integrals  INT t:[lo(x), hi(x)]. f(x, t)
+        f = gen_expr(E, rng, 2, names=("x", "t", "t", "y"), binders=False, funs=("sin", "cos", "exp", "atan"), extra_funs=())
+        lo = rng.choice([E.Const(0), E.Const(1), E.Var("y"), E.Var("x")])
+        hi = rng.choice([E.Var("x"), E.Var("x"), E.Op("^", E.Var("x"), E.Const(2)), E.Const(2), E.Op("*", E.Const(2), E.Var("x"))])
+        cases.append(E.Integral("t", lo, hi, f))
     lines, keep = [], []
     for e in cases:
         sx = to_sexp(E, e)
@@ -1049,6 +1191,12 @@ def deriv_stream(ctx, I, n):
         lines.append(sexp.dumps(["deriv", "x", sx]))
     out = ctx.lean_driver(EXE, lines)
     ndis = 0
+    # canary: with an effective stub the raw derivative of x + x is the unsimplified 1 + 1
+    st0, d0 = run_deriv_impl(I, I.parser.parse_expr("x + x"))
+    effective = (st0 == "ok" and d0.ty == E.OP)
+    ctx.coverage["deriv_normalize_stub_effective"] = effective
+    if not effective:
+        ctx.log("note: the normalize stub does not reach deriv any more; deriv is compared with derivM on normal forms / values only")
     for k, (e, sx) in enumerate(keep):
         st, d = run_deriv_impl(I, e)
         ctx.case(("deriv", canon(sx)), nontrivial=(e.ty not in (E.VAR, E.CONST) and "x" in e.get_vars()))
@@ -1060,15 +1208,58 @@ def deriv_stream(ctx, I, n):
             impl = "raises" if st == "raises" else st
         if out is not None and impl != "outside-model":
             if out[k] != impl:
-                ndis += 1
+                # A structural difference alone proves nothing (the normalize stub may not have been effective, the
+                # code may have been refactored): compare normal forms, then values.
                 ctx.coverage["disagreements_checked"] += 1
-                if ndis <= 3:
-                    ctx.broken("correspondence:c19:deriv", "e=%s impl=%s model=%s" % (e, impl[:300], out[k][:300]))
+                how = reconcile_deriv(ctx, I, e, d if st == "ok" else None, out[k], rng)
+                ctx.count("deriv:raw-structure-differs:" + how)
+                if how == "values-differ":
+                    ndis += 1
+                    if ndis <= 3:
+                        ctx.broken("correspondence:c19:deriv", "e=%s impl=%s model=%s (values differ)" % (e, impl[:300], out[k][:300]))
         # ---- property oracle on the real (normalising) deriv: numerical derivative
         deriv_oracle(ctx, I, e, rng)
     if out is None:
         ctx.broken("correspondence:c19:driver", "model driver unavailable")
     ctx.sample({"deriv_input": str(cases[len(deriv_corpus(I))]) if len(cases) > len(deriv_corpus(I)) else ""})
+
+
+def reconcile_deriv(ctx, I, e, d, model_line, rng):
+    """Implementation result `d` (None: raised) against the model's answer line when they are not identical.
+    -> "raise-mismatch" | "same-normal-form" | "same-values" | "values-differ" | "undecided"."""
+    E = I.expr
+    if d is None or not model_line.startswith("(ok "):
+        return "raise-mismatch"
+    try:
+        m = from_sexp(E, sexp.loads(model_line)[1])
+    except Exception:  # noqa
+        return "undecided"
+    C = I.conditions.Conditions()
+    s1, n1 = impl_normalize(I, d, C)
+    s2, n2 = impl_normalize(I, m, C)
+    if s1 == "ok" and s2 == "ok":
+        try:
+            if same_expr(E, n1, n2) or n1 == n2:
+                return "same-normal-form"
+        except Exception:  # noqa
+            pass
+    if not well_scoped(E, e):
+        return "undecided"
+    names = d.get_vars() | m.get_vars() | e.get_vars() | deriv_vars(E, d) | deriv_vars(E, m)
+    good = 0
+    for _ in range(8):
+        env = {n: round(rng.uniform(0.15, 1.6) * rng.choice([1, 1, 1, -1]), 3) for n in names}
+        try:
+            a = two_prec(E, d, env, limit_s=4)
+            b = two_prec(E, m, env, limit_s=4)
+        except Unrel:
+            continue
+        good += 1
+        if not close(a, b):
+            return "values-differ"
+        if good >= 2:
+            return "same-values"
+    return "same-values" if good else "undecided"
 
 
 def well_scoped(E, e, outer=frozenset()):
@@ -1717,8 +1908,21 @@ def normalize_stream(ctx, I, n):
     corpus = ["sqrt(x^2)", "(x^2)^(1/2)", "atan(tan(x))", "sin(asin(x))", "log(x^2)", "exp(log(x))", "log(exp(x))", "x^2/x", "(x+1)^2/(x+1)",
               "sqrt(x)*sqrt(x)", "x^(1/2)*x^(1/2)", "(x*y)^(1/2)", "sqrt(x*y)", "(x^3)^(1/3)", "abs(x)^2", "x/x", "0^x", "x^0", "1/(1/x)",
               "(-x)^2", "(-x)^(1/2)", "sqrt(-x)", "log(1/x)", "exp(x)^2", "exp(x+y)", "cos(-x)", "sin(pi/2 - x)", "tan(x)*cot(x)",
-              "(x^(1/2))^2", "((x-1)^2)^(1/2)", "x^a*x^b", "(x^a)^b", "2^x*2^y", "INT t:[1,0]. t*x", "INT t:[0,1]. (t^2)^(1/2)*x"]
+              "(x^(1/2))^2", "((x-1)^2)^(1/2)", "x^a*x^b", "(x^a)^b", "2^x*2^y", "INT t:[1,0]. t*x", "INT t:[0,1]. (t^2)^(1/2)*x",
+              # evaluation at an end point where the body is singular: the one-sided limit from INSIDE the interval is meant
+              "[atan(1/t)]_t=0,1", "[atan(1/t)]_t=-1,0", "[exp(-1/t)]_t=0,1", "[abs(t)/t * x]_t=0,2", "[t*log(t)]_t=0,1",
+              "[atan(1/(t-1))]_t=1,2", "[atan(1/(t-1)) * x]_t=0,1", "[exp(1/t)]_t=-1,0", "[sin(t)/t]_t=0,1", "[atan(x/t)]_t=0,1"]
     cases = [(P(s), []) for s in corpus]
+    # generated evaluations with a jump or an essential singularity at one end
+    for _ in range(max(8, n // 60)):
+        c = rng.choice([0, 0, 1, -1, 2])
+        lo_sing = rng.random() < 0.5
+        other = c + rng.choice([1, 2]) if lo_sing else c - rng.choice([1, 2])
+        u = "(t - %d)" % c if c > 0 else ("(t + %d)" % -c if c < 0 else "t")
+        body = rng.choice(["atan(1/%s)", "exp(-1/%s^2) + atan(2/%s)", "abs(%s)/%s", "atan(1/%s) * x", "%s * log(abs(%s)) + atan(1/%s)",
+                           "x / (1 + exp(1/%s))"]).replace("%s", u)
+        lo, hi = (c, other) if lo_sing else (other, c)
+        cases.append((P("[%s]_t=%d,%d" % (body, lo, hi)), []))
     for _ in range(n):
         e = gen_expr(E, rng, rng.choice([2, 3, 3, 4]), names=("x", "x", "y"), binders=(rng.random() < 0.25), extra_funs=())
         conds = []
@@ -1754,7 +1958,7 @@ def normalize_check(ctx, I, e, conds, rng):
             second = n2
     names = e.get_vars() | n1.get_vars()
     good = 0
-    for _ in range(8):
+    for _ in range(8 if names else 1):
         env = sample_env(E, rng, names, conds, set())
         if env is None:
             break
@@ -1854,7 +2058,7 @@ def rules_stream(ctx, I, n):
     E, R = I.expr, I.rules
     P = I.parser.parse_expr
     rng = ctx.rng("rules")
-    judge = StepJudge(I, rng, nsamples=1, budget_s=ctx.scale(4.0, 10.0))
+    judge = StepJudge(I, rng, nsamples=3, budget_s=ctx.scale(4.0, 10.0))
     conds = [P("a > 0"), P("b > 0")]
     hctx = I.context.Context()
     for c in conds:
@@ -1945,6 +2149,75 @@ def rule_case(ctx, I, kind, before, rule, rng, judge=None, calc_ivars=None, samp
                           {"kind": "rule", "rule": kind, "before": before_s, "rule_str": str(rule), "params": rule.export(), "detail": detail})
         if k == 0:
             ctx.sample({"rule_case": [kind, before_s, str(rule), str(after)]})
+
+
+# =====================================================================================================
+# stream: Linearity / SplitRegion against linearityM / splitM (structural), value judged as well
+# =====================================================================================================
+def linearity_stream(ctx, I, n):
+    E, R = I.expr, I.rules
+    P = I.parser.parse_expr
+    rng = ctx.rng("linearity")
+    corpus = ["INT x:[0,1]. 2 * x + 3 * x ^ 2", "INT x:[0,1]. a * x / b", "INT x:[0,1]. -(a * x) - x / (a * x)", "INT x:[0,1]. 2",
+              "INT x:[0,1]. 1", "INT x:[0,1]. pi * 2", "INT x:[0,1]. a", "INT x:[0,1]. x * (a + x) * 2", "INT x:[0,1]. 2 * (x + 1)",
+              "INT x:[0,1]. x / 1", "INT x:[0,1]. 1 / x", "INT x:[0,1]. a / (b * x) / c", "INT x:[0,1]. -x * -a", "INT x:[1,2]. a * (b * (x + c * x))",
+              "INT x:[0,1]. (a * x) ^ 2", "INT x:[0,y]. y * x", "INT x:[0,1]. x * (INT y:[0,x]. a * y)", "INT x:[0,1]. -(-(2 * x))",
+              "INT x:[0,1]. a / b", "INT x:[0,1]. sin(a) * cos(x)", "x + 1", "2 * (INT x:[0,1]. 2 * x)"]
+    cases = []
+    for s_ in corpus:
+        cases.append(P(s_))
+    for _ in range(n):
+        lo, hi, c, _q = gen_bounds(I, rng)
+        if rng.random() < 0.5:
+            body = gen_integrand(I, rng, rng.choice([1, 2, 3]))
+        else:
+            body = gen_expr(E, rng, rng.choice([1, 2, 3, 4]), names=("x", "x", "a", "b"), binders=(rng.random() < 0.2), extra_funs=())
+        cases.append(E.Integral("x", lo, hi, body))
+    lines, keep = [], []
+    for e in cases:
+        sx = to_sexp(E, e)
+        if sx is None:
+            continue
+        if rng.random() < 0.3 and e.ty == E.INTEGRAL:
+            c = gen_const(E, rng) if rng.random() < 0.5 else P(rng.choice(["1/2", "a", "pi / 4", "x0 + 1"]))
+            keep.append(("split", e, c))
+            lines.append(sexp.dumps(["split", to_sexp(E, c), sx]))
+        else:
+            keep.append(("lin", e, None))
+            lines.append(sexp.dumps(["lin", sx]))
+    out = ctx.lean_driver(EXE, lines)
+    judge = StepJudge(I, rng, nsamples=1, budget_s=3.0)
+    nd = 0
+    with quiet():
+        conds = [P("a > 0"), P("b > 0")]
+    for k, (kind, e, c) in enumerate(keep):
+        rule = R.Linearity() if kind == "lin" else R.SplitRegion(c)
+        st, r = apply_rule(I, rule, P(str(e)) if roundtrip_domain(E, e) else e)
+        ctx.case(("linearity", kind, str(e), str(c)), nontrivial=e.ty == E.INTEGRAL)
+        ctx.count("linearity:%s:%s" % (kind, "applied" if st == "ok" else st.split(":")[0]))
+        if st != "ok":
+            continue
+        if kind == "split" and has_node(E, r, (E.LIMIT,)):
+            ctx.count("linearity:split:principal-value-branch")      # not modelled
+            continue
+        rsx = to_sexp(E, r)
+        if out is None or rsx is None:
+            continue
+        if out[k] != canon(rsx):
+            # structural difference: decide by value (a refactoring that reorders factors is harmless)
+            ctx.coverage["disagreements_checked"] += 1
+            try:
+                m = from_sexp(E, sexp.loads(out[k]))
+                verdict, detail = judge.judge(r, m, conds, {}, {}, set(), set())
+            except Exception:  # noqa
+                verdict, detail = "skip", None
+            ctx.count("linearity:structure-differs:" + verdict.split(":")[0])
+            if verdict == "bad":
+                nd += 1
+                if nd <= 3:
+                    ctx.broken("correspondence:c19:linearity", "%s on %s: impl=%s model=%s (values differ: %s)" % (kind, e, r, out[k][:300], detail))
+    if out is None:
+        ctx.broken("correspondence:c19:driver", "model driver unavailable")
 
 
 # =====================================================================================================
@@ -2199,10 +2472,13 @@ def run(ctx):
         "IndefiniteIntegral/Skolem/oo/relations. interval: random intervals with small rational or infinite endpoints and open/closed "
         "flags, operations + - neg * inverse / ^n (n<=6), every result also judged on rational sample points (attained endpoints, interior, "
         "near zero) in exact arithmetic; bounds: get_bounds_for_expr on + - * / ^n sqrt exp log sin cos expressions under interval "
-        "conditions. normalize: corpus + random expressions, with/without x>0,y>0. rules: generated Linearity (integral, finite sum, "
-        "antiderivative), SplitRegion, IntegrationByParts, Substitution, SubstitutionInverse on integrands built from 24 atoms, "
-        "rational bounds in [1/8, 9/4]. examples: every recorded step of the typed example files re-run through compstate (quick: a "
-        "seeded subset within a time cap). distinct = by canonical input string.")
+        "conditions. normalize: corpus (incl. evaluations at singular end points) + random expressions, with/without x>0,y>0. "
+        "linearity: Linearity / SplitRegion on corpus + generated definite integrals against linearityM / splitM. rules: generated "
+        "Linearity (integral, finite sum, antiderivative), SplitRegion, IntegrationByParts, Substitution, SubstitutionInverse, "
+        "DerivIntExchange on integrands built from 24 atoms, rational bounds in [1/8, 9/4]. examples: recorded steps of the typed "
+        "example files re-run through compstate and judged at >= 3 parameter points (interior / near the stated bounds / larger "
+        "magnitude); thorough: all files; quick: the file group `seed mod 4` (a quarter of the steps) within a time cap -- see "
+        "example_steps.coverage for what this run reached. distinct = by canonical input string.")
     use_module_findings(ctx)
     proofs_ok = ctx.lean_props(["Holpy.C19.Props"], exes=[EXE])
     if ctx.tier == "thorough" and proofs_ok:
@@ -2239,12 +2515,34 @@ def run(ctx):
     ctx.log("interval streams done")
     normalize_stream(ctx, I, ctx.scale(500, 8000))
     ctx.log("normalize stream done")
-    rules_stream(ctx, I, ctx.scale(110, 1400))
+    linearity_stream(ctx, I, ctx.scale(300, 4000))
+    rules_stream(ctx, I, ctx.scale(80, 900))
     ctx.log("generated rule applications done")
     files = typed_example_files(ctx.repo)
-    ctx.rng("example-files").shuffle(files)
-    stats = replay_examples(ctx, I, files, deadline=time.time() + ctx.scale(70, 840))
+    if os.environ.get("C19_REGEN_REPLAYABLE"):
+        keys = []
+        replay_examples(ctx, I, files, collect=keys)
+        with open(os.path.join(ctx.verif, "corpus", "c19_replayable.json"), "w") as f:
+            json.dump({"comment": "recorded steps whose rule re-runs without raising on the unchanged tree; "
+                                  "regenerate with C19_REGEN_REPLAYABLE=1 ./check C19", "steps": sorted(keys),
+                       "files": sorted({k.split("#")[0] for k in keys})}, f, indent=0)
+        ctx.log("wrote corpus/c19_replayable.json (%d steps)" % len(keys))
+    groups = example_groups(files, 4)
+    if ctx.tier == "quick":
+        # one quarter of the files per seed (seeds 0..3 together cover every file); the rest only if time is left
+        g = ctx.seed % 4
+        order = groups[g] + [f for k in range(1, 4) for f in groups[(g + k) % 4]]
+        nsel = sum(nsteps_of(c) for _, c in groups[g])
+    else:
+        order = [f for grp in groups for f in grp]
+        nsel = sum(nsteps_of(c) for _, c in order)
+    stats = replay_examples(ctx, I, order, deadline=time.time() + ctx.scale(95, 900))
     stats.pop("_slow", None)
+    ntotal = sum(nsteps_of(c) for _, c in files)
+    judged = sum(v for k, v in stats.items() if k in ("ok", "bad") or k.startswith("skip:"))
+    stats["coverage"] = ("%d of the %d recorded steps reached this run (%d judged ok at %d parameter points in all, the others "
+                         "skipped as unreliable); quick tier: the file group of seed %% 4 first (%d steps), all files over seeds 0-3"
+                         % (judged, ntotal, stats.get("ok", 0), stats.get("points", 0), nsel))
     ctx.coverage["example_steps"] = stats
     ctx.log("recorded calculations done: %s" % {k: v for k, v in stats.items() if not k.startswith("rule:")})
     ctx.coverage["oracle_note"] = ("numerical judgements (mpmath) are supporting evidence, not proof; counts of skipped steps are in "
@@ -2324,18 +2622,31 @@ def replay(ctx, rp):
 
 MANIFEST = {
     "text": "Lean theorems (Mathlib analysis) about an executable model of the calculator's logic cores: deriv_correct (every case of "
-            "rules.deriv on the closed-form fragment has the derivative as its value, under domain conditions), interval_encloses "
-            "(+, -, unary -, *, inverse, /, natural powers with open/closed flags and infinite endpoints), expr_parse_print (printer/parser "
-            "precedence core), linearity_value/split_value (interval integrals). The model is tied to integral/rules.py, expr.py, "
-            "parser.py, interval.py by differential runs on generated inputs (deriv observed with normalize stubbed in the harness process). "
-            "Every other rule (simplification, substitution and inverse, parts, identities, limits, series, definitions) and normalize are "
-            "judged numerically (mpmath, two precisions) on every recorded step of integral/examples and on generated applications: "
-            "supporting evidence, not proof.",
+            "rules.deriv on the closed-form fragment has the derivative as its value, under domain conditions); interval_encloses_add/"
+            "neg/sub/mul/inverse/div/pow (Interval + - unary - * inverse / and natural powers, with open/closed flags and infinite "
+            "endpoints); expr_parse_print_partial (token-level round trip of the printer's bracket rules through a model of the Lark "
+            "grammar; lexing of the printed string is checked per case at run time, not proved); linearity_value and split_value "
+            "(the expression linearityM / splitM returns - models of Linearity.eval on definite integrals and of SplitRegion.eval's "
+            "non-principal-value branch - has the value of the integral, under interval integrability of the parts). Every model "
+            "function (derivM, pp/ppT/lex/parse, Ival.*, linearityM, splitM) is compared with the real Python on generated inputs on "
+            "every run (deriv with normalize stubbed in the harness process; a purely structural difference is then re-judged on "
+            "normal forms and values). Everything else is judged only numerically (mpmath, two precisions; supporting evidence, not "
+            "proof): Simplify/normalize, Substitution and its inverse, IntegrationByParts, identities, limits, series, definitions, "
+            "equation rules, DerivIntExchange, the Leibniz integral case of deriv, and all of get_bounds_for_expr together with "
+            "Interval.sqrt/exp/log/sin/cos and powers with an interval or non-natural exponent. The numerical judgement uses >= 3 "
+            "admissible parameter points per step (interior, near the stated bounds, larger magnitude) on generated rule applications "
+            "and on the recorded steps of integral/examples: the thorough tier re-runs all ~1290 loadable recorded steps (time cap 15 "
+            "min), the quick tier one quarter of the files per run (the group seed mod 4, ~330 steps, 95 s cap; seeds 0-3 together "
+            "cover every file); about 15% of the steps cannot be evaluated reliably and are counted as skipped. A recorded step whose "
+            "rule starts raising (it re-runs on the unchanged tree: corpus/c19_replayable.json) is reported.",
     "note": "Trusted: Lean kernel + propext/Classical.choice/Quot.sound, Mathlib analysis library, the harness generators and the numerical "
-            "oracle (mpmath quadrature/differentiation/limits), Lark. Partial: theorems cover deriv (closed-form fragment; the Leibniz "
-            "integral case is only compared structurally and numerically), interval arithmetic, the printer/parser core and the "
-            "linearity/splitting identities; normalize's idempotence does not hold on the pinned tree (known finding).",
-    "design_ref": "DESIGN.md 4/C19",
+            "oracle (mpmath quadrature/differentiation/limits), Lark. UNPROVED (numerical oracle only): normalize and every rule other "
+            "than deriv/Linearity/SplitRegion; Conditions.get_bounds_for_expr and Interval.sqrt, exp, log, sin, cos, contained_in, "
+            "intersection, from_condition and ** with an interval / fractional / negative exponent (six of the ten repaired defects "
+            "were in normalize and in these interval parts); IntegrationByParts (parts_value is not proved); the principal-value "
+            "branch of SplitRegion; Linearity on indefinite integrals, limits and sums. deriv_correct excludes the Leibniz integral "
+            "case (compared structurally and numerically). normalize's idempotence does not hold on the pinned tree (known finding).",
+    "design_ref": "DESIGN.md 4/C19, 8.19",
 }
 FINDINGS = [
     {"status": "fixed", "key": "deriv-value:cot(x ^ 2)", "commit": "f909729",
